@@ -84,29 +84,49 @@ def inv_of(mk, isse, d, X):
     return mk(X).inv()
 
 
-def minv_of(cls, isse, d, mats):
-    """cls([X0, X1, ...], check=False).inv()  -- the MULTI-valued branch of inv().
-    SE2 only: that branch iterates `for x in self`, and SMUserList.__getitem__ re-validates every element with a checking
-    constructor.  With symbols this needs (i) the last row given literally as (0, 0, 1) (the test `T[2,:] == [0,0,1]` is
-    structural on SymPy objects), so the symbolic last row of each input is replaced by the constants -- the trace is about
-    matrices whose last row is (0,0,1) and ignores the inputs' last rows; (ii) a shadow valuation of exact rotations to
-    decide isR (path condition: the rotation block passes the validity test)."""
-    mats = list(mats)
-    if cls is SE2 and isinstance(np.asarray(mats[0]).flatten()[0], sympy.Expr):
-        concolic.VAL.clear()
-        concolic.PATH.clear()
-        R = sympy.Rational
-        rots = [(R(3, 5), R(4, 5)), (R(5, 13), R(-12, 13)), (R(8, 17), R(15, 17))]
-        lit = []
-        for k, X in enumerate(mats):
-            c, s_ = rots[k % 3]
-            for sym, v_ in zip(np.asarray(X, dtype=object).flatten(), [c, -s_, R(1, 3) + k, s_, c, R(1, 7) - k, 0, 0, 1]):
-                concolic.VAL[sym] = v_
-            Xl = np.array(X, dtype=object)
-            Xl[2, :] = [0, 0, 1]
-            lit.append(Xl)
-        return cls(lit, check=False).inv()
-    return cls(mats, check=False).inv()
+def shadow_group(cn, mats):
+    """for code paths that iterate a multi-valued pose (`for x in self`, `zip(left, ...)`): SMUserList.__getitem__
+    re-validates every element with a checking constructor.  With symbols this needs (i) the last row of an SE(n) value
+    given literally as (0,..,0,1) (the test `T[n,:] == [0,..,1]` is structural on SymPy objects), so the symbolic last
+    row of each input is replaced by the constants -- such a trace is about matrices whose last row is (0,..,0,1) and
+    ignores the inputs' last rows; (ii) a shadow valuation of exact rotations to decide isR (path condition: the rotation
+    block passes the validity test).  Returns the matrices to hand to the constructor."""
+    cls, d, isse = CLASSES[cn]
+    if not isinstance(np.asarray(mats[0]).flatten()[0], sympy.Expr):
+        return list(mats)
+    concolic.VAL.clear()
+    concolic.PATH.clear()
+    Q = sympy.Rational
+    cs = [(Q(3, 5), Q(4, 5)), (Q(5, 13), Q(-12, 13)), (Q(8, 17), Q(15, 17))]
+    out = []
+    for k, X in enumerate(mats):
+        c, s_ = cs[k % 3]
+        if d == 2:
+            Rv = [[c, -s_], [s_, c]]
+        elif k % 2 == 0:
+            Rv = [[c, -s_, 0], [s_, c, 0], [0, 0, 1]]
+        else:
+            Rv = [[1, 0, 0], [0, c, -s_], [0, s_, c]]
+        n = d + 1 if isse else d
+        vals = np.zeros((n, n), dtype=object)
+        vals[:d, :d] = Rv
+        if isse:
+            vals[:d, d] = [Q(1, 3) + k, Q(1, 7) - k, Q(2, 9) + k][:d]
+            vals[d, :] = [0] * d + [1]
+        for sym, v_ in zip(np.asarray(X, dtype=object).flatten(), vals.flatten()):
+            concolic.VAL[sym] = v_
+        Xl = np.array(X, dtype=object)
+        if isse:
+            Xl[d, :] = [0] * d + [1]
+        out.append(Xl)
+    return out
+
+
+def minv_of(cn, mats):
+    """cls([X0, X1, ...], check=False).inv()  -- the MULTI-valued branch of inv().  Only SE2's iterates `for x in self`
+    (see shadow_group); the others run on plain symbols"""
+    cls = CLASSES[cn][0]
+    return cls(shadow_group(cn, mats) if cn == 'SE2' else list(mats), check=False).inv()
 
 
 def unit_q_sampler(shapes):
@@ -154,6 +174,12 @@ def build(ctx):
             for i in range(L):
                 g.trace(f'tr_{cn}_m{L}_c{i}', [(f'X{k}', M) for k in range(L)] + [('v', V)],
                         (lambda cls, i, L: lambda *a: (cls(list(a[:L]), check=False) * a[L])[:, i])(cls, i, L))
+        # ---- two-valued pose x (d x 2) array: column i is pose i applied to column i (the branch repaired by fix 86fcbcb)
+        for i in range(2):
+            g.trace(f'tr_{cn}_ma2_c{i}', [('X0', M), ('X1', M), ('p0', V), ('p1', V)],
+                    (lambda cn, cls, i: lambda X0, X1, p0, p1: (cls(shadow_group(cn, [X0, X1]), check=False) * np.column_stack([p0, p1]))[:, i])(cn, cls, i),
+                    sampler=(lambda cn, d: lambda rng: rand_pose_mats(rng, cn, 2, 0.1, 10) + [rng.normal(size=d), rng.normal(size=d)])(cn, d),
+                    note='the branch iterates zip(left, right.T): elements are re-validated by __getitem__; traced with literal last rows and a shadow valuation of exact rotations')
         # ---- composition and inverse (the group side of the compatibility laws)
         g.trace(f'tr_{cn}_mul', [('X', M), ('Y', M)], (lambda mk: lambda X, Y: (mk(X) * mk(Y)).A)(mk))
         # X.inv() * v  (the inverse as a matrix too for SE(n); the SO(n) inverse is a bare transposition, no arithmetic to trace)
@@ -167,7 +193,7 @@ def build(ctx):
         smp2 = (lambda cn, d: lambda rng: rand_pose_mats(rng, cn, 2, 0.1, 10) + [rng.normal(size=d)])(cn, d)
         for k in range(2):
             g.trace(f'tr_{cn}_minv2_c{k}', [('X0', M), ('X1', M), ('v', V)],
-                    (lambda cls, isse, d, k: lambda X0, X1, v: (minv_of(cls, isse, d, [X0, X1]) * v)[:, k])(cls, isse, d, k),
+                    (lambda cn, k: lambda X0, X1, v: (minv_of(cn, [X0, X1]) * v)[:, k])(cn, k),
                     sampler=smp2, note=('SE2: elements are re-validated by __getitem__ while iterating; traced with the last rows '
                                         'literally (0,0,1) and under a shadow valuation of exact rotations') if cn == 'SE2' else '')
     # ---- homogeneous-coordinate function route
@@ -356,22 +382,32 @@ def spec_check(ctx, cn, L, form, ncol, mats, pts, obs, rep_in):
                                            for the column form, not specified for the row form (any d-element shape)
        single pose x d x N array        -> shape (d,N), column j = R p_j + t
        multi-valued pose x vector form  -> shape (d,L), column i = R_i p + t_i
-       multi-valued pose x d x N, N>=2  -> not a documented combination ("Any other input combinations result in a
-                                           ValueError"); an elementwise result for N == L would also be acceptable"""
+       multi-valued pose x d x N, N>=2  -> N == L: shape (d,L), column i = R_i p_i + t_i; otherwise ValueError ("Any other
+                                           input combinations result in a ValueError")"""
     cls, d, isse = CLASSES[cn]
     cell = f'{cn}:len{L}:{form}'
     who = 'single-pose' if L == 1 else 'multi-pose'
     what = 'vector' if ncol == 1 else 'array'
     site = f'{who}-x-{what}'
     if L > 1 and ncol >= 2:
-        rel = 'N-eq-len' if ncol == L else 'N-ne-len'
-        if obs[0] == 'value':
-            want = np.column_stack([ref_apply(cn, mats[i], pts[:, i]) for i in range(L)]) if ncol == L else None
-            if want is None or obs[1] != want.shape or not np.max(np.abs(obs[2] - want)) <= REL * max(np.max(np.abs(want)), 1e-300):
-                ctx.fail(f'grid:{site}:{rel}:returns-wrong-value', f"cell {cell}: a multi-valued pose times a d x N array returned a value of shape {obs[1]} "
-                         "that is not pose[i] applied to column i", rep_in)
+        if ncol == L:
+            # documented since fix 86fcbcb: "M, (N,M) -> (N,M), column i is left[i] * right[:,i]"
+            if obs[0] != 'value':
+                ctx.fail(f'grid:{site}:N-eq-len:regression-86fcbcb-raises-{obs[1]}', f"cell {cell}: a multi-valued pose times a d x N array with N == len raises "
+                         f"{obs[1]}: {obs[2]} (documented: column i is pose[i] applied to column i)", rep_in)
+                return
+            want = np.column_stack([ref_apply(cn, mats[i], pts[:, i]) for i in range(L)])
+            scale = max(float(np.max(np.linalg.norm(pts[:, :L], axis=0))), max(np.linalg.norm(m[:d, d]) if isse else 0.0 for m in mats))
+            ctx.count('oracle:grid-value')
+            if obs[1] != want.shape:
+                ctx.fail(f'grid:{site}:N-eq-len:shape', f"cell {cell}: result shape {obs[1]}, expected {want.shape}", rep_in)
+            elif not float(np.max(np.abs(obs[2] - want))) <= REL * scale:
+                ctx.fail(f'grid:{site}:N-eq-len:value', f"cell {cell}: column i is not pose[i] applied to column i (independent R_i p_i + t_i)",
+                         dict(rep_in, got=obs[2].tolist(), want=want.tolist()))
+        elif obs[0] == 'value':
+            ctx.fail(f'grid:{site}:N-ne-len:returns-value', f"cell {cell}: a multi-valued pose of length {L} times a d x {ncol} array returned a value of shape {obs[1]}", rep_in)
         elif obs[1] != 'ValueError':
-            ctx.fail(f'grid:{site}:{rel}:raises-{obs[1]}', f"cell {cell}: multi-valued pose times d x N array raises {obs[1]}: {obs[2]} "
+            ctx.fail(f'grid:{site}:N-ne-len:raises-{obs[1]}', f"cell {cell}: multi-valued pose times d x N array (N != len) raises {obs[1]}: {obs[2]} "
                      "(documented: ValueError for unsupported combinations)", rep_in)
         return
     if obs[0] != 'value':
@@ -418,7 +454,7 @@ def oracle(ctx):
     rng = ctx.rng
     N = ctx.n(300, 12000)
 
-    def chk(key, lhs, rhs, scale, rep, tol=REL, classify=None, stat=None):
+    def chk(key, lhs, rhs, scale, rep, tol=REL, stat=None):
         lhs, rhs = np.asarray(lhs, float), np.asarray(rhs, float)
         ctx.count('oracle:' + key)
         if lhs.size == rhs.size and lhs.shape != rhs.shape:
@@ -426,11 +462,6 @@ def oracle(ctx):
         err = float(np.max(np.abs(lhs - rhs))) if lhs.shape == rhs.shape else float('inf')
         rel = err / scale if scale > 0 else err
         if not err <= tol * scale:
-            k2 = classify(rel) if classify else None
-            if k2:
-                ctx.stats['worst:' + k2] = max(ctx.stats.get('worst:' + k2, 0.0), rel)
-                ctx.fail(k2, f"law {key}: |lhs-rhs|={err:g}, data magnitude {scale:g} (relative {rel:.3g})", dict(rep, law=key, lhs=lhs.tolist(), rhs=rhs.tolist()))
-                return False
             ctx.fail('oracle:' + key, f"law {key} fails on the implementation: |lhs-rhs|={err:g}, data magnitude {scale:g}",
                      dict(rep, law=key, lhs=lhs.tolist(), rhs=rhs.tolist()))
             return False
@@ -481,17 +512,16 @@ def oracle(ctx):
         if d == 3:
             Rm = Xm[:3, :3]
             t = Xm[:3, 3] if isse else np.zeros(3)
-            # rotations where base.r2q is ill-conditioned in floating point (exact in L-real): within ~3e-5 rad of a half
-            # turn (scalar part from sqrt(trace + 1)) and within ~1e-5 rad of the identity (vector part scaled by
-            # sqrt(1 - qs^2), which rounds to 0 below ~1.5e-8 rad)
+            # regions where the conversion rotation matrix -> quaternion is delicate (the scalar / vector part is tiny): near the
+            # identity and near a half turn.  Since fix 1cdf860 r2q is well conditioned there too; the label only splits the
+            # measured worst errors.  The tolerance is the property's 1e-9 everywhere.
             band = 'near-half-turn' if (np.trace(Rm) + 1.0) < 1e-9 else ('near-identity' if (3.0 - np.trace(Rm)) < 1e-10 else None)
             ctx.count('oracle:rotation:' + (band or 'generic'))
-            r2q_key = (lambda band: lambda rel: f'oracle:quaternion-routes:r2q-{band}' if band and rel <= 1e-6 else None)(band)
             try:
                 uq = UnitQuaternion(Rm)
-                chk(f'{cn}:route-unit-quaternion', np.asarray(uq * P, float) + t.reshape(3, 1), XP, sX, rep, classify=r2q_key, stat=band or 'generic')
-                chk(f'{cn}:route-qvmul', base.qvmul(uq.vec, P[:, 0]) + t, XP[:, 0], sX, rep, classify=r2q_key, stat=band or 'generic')
-                chk(f'{cn}:route-q2r', base.q2r(uq.vec) @ P + t.reshape(3, 1), XP, sX, rep, classify=r2q_key, stat=band or 'generic')
+                chk(f'{cn}:route-unit-quaternion', np.asarray(uq * P, float) + t.reshape(3, 1), XP, sX, rep, stat=band or 'generic')
+                chk(f'{cn}:route-qvmul', base.qvmul(uq.vec, P[:, 0]) + t, XP[:, 0], sX, rep, stat=band or 'generic')
+                chk(f'{cn}:route-q2r', base.q2r(uq.vec) @ P + t.reshape(3, 1), XP, sX, rep, stat=band or 'generic')
             except Exception as ex:  # noqa
                 ctx.fail(f'oracle:{cn}:route-unit-quaternion:raises-{type(ex).__name__}', f"UnitQuaternion route raises {type(ex).__name__}: {ex}", rep)
             if cn == 'SE3':
@@ -561,6 +591,12 @@ def oracle_multi(ctx):
         Xp_ref = np.column_stack([ref_apply(cn, m, p) for m in Xm])
         Xp = np.asarray(X * p, float)
         chk(f'{key}:point-is-Rp+t', Xp, Xp_ref, sc, rep)
+        # ---- multi-valued pose x (d x L) array: column i is value i applied to column i (branch repaired by fix 86fcbcb)
+        PL = rng.normal(size=(d, L)) * float(np.linalg.norm(p))
+        try:
+            chk(f'{key}:array-by-columns', X * PL, np.column_stack([ref_apply(cn, Xm[i], PL[:, i]) for i in range(L)]), sc, dict(rep, P_hex=hexl(PL)))
+        except Exception as ex:  # noqa
+            ctx.fail(f'oracle:{key}:array-by-columns:regression-86fcbcb-raises-{type(ex).__name__}', f"{cn} of length {L} times a {d} x {L} array raises {type(ex).__name__}: {ex}", rep)
         # ---- inverse, three ways, element by element: value i of the inverse undoes value i
         ways = {'inv()': lambda: X.inv(), 'pow(-1)': lambda: X ** -1, 'identity/X': lambda: make_pose(cn, [np.eye(d + 1 if isse else d)]) / X}
         for wname, mkinv in ways.items():
@@ -640,10 +676,7 @@ def udq_route(ctx, Xm, p, want, tX, band, rep):
         if tX > 1e-6 * sc:
             ctx.count('oracle:SE3:route-dual-quaternion:agrees-with-nonzero-translation')
         return
-    if band and e_full <= 1e-6:
-        # UnitDualQuaternion(SE3) takes its real part from UnitQuaternion(T.R), i.e. through base.r2q
-        ctx.fail(f'oracle:quaternion-routes:r2q-{band}', f"UnitDualQuaternion route differs from X * p by {e_full:.3g} (relative) for a rotation {band}", rep)
-    elif e_rot <= (1e-6 if band else REL) and tX > REL * sc:
+    if e_rot <= REL and tX > REL * sc:
         # the defect repaired by fix 0a28e8d (wrong conjugate): must stay a VIOLATION if it ever comes back
         ctx.fail('oracle:SE3:route-dual-quaternion:regression-0a28e8d-translation-lost', f"UnitDualQuaternion(X) * p = {got.tolist()} equals R p; X * p = R p + t = {want.tolist()}: "
                  "the translation is lost", rep)
@@ -659,9 +692,9 @@ def run(ctx):
                 "(cell or law, input) signature")
     ctx.trusted_extra = ["hand model theories/Model/C06_Dispatch.v of the isinstance/shape dispatch in SMPose.__mul__ "
                          "(super_pose.py:956-994), tied by exhaustive grid correspondence (vm_compute vs implementation) on every run",
-                         "tr_UDQ_v and tr_SE2_minv2_c* are single concolic paths (validity test of the UnitQuaternion constructor / of "
-                         "SMUserList.__getitem__ passes); their path conditions are not emitted, the theorems about them assume "
-                         "|q| = 1 / use them on SE(2) members"]
+                         "tr_UDQ_v, tr_SE2_minv2_c* and tr_*_ma2_c* are single concolic paths (validity test of the UnitQuaternion "
+                         "constructor / of SMUserList.__getitem__ passes); their path conditions are not emitted, the theorems about "
+                         "them assume |q| = 1 / use them on group members"]
     with ctx.timed('regenerate'):
         g = build(ctx)
         path = ctx.write_gen(MOD + '.v', g.coq_text())
